@@ -13,7 +13,8 @@ ENGINES = {
 
 PROP = {
     "engines": ["plan"],
-    "lean_modules": ["AxVerif.Model.Sql", "AxVerif.Lemmas.Sql"],
+    "lean_modules": ["AxVerif.Model.Plan", "AxVerif.Model.Index", "AxVerif.Lemmas.Plan", "AxVerif.Lemmas.Index",
+                     "AxVerif.Lemmas.PlanRules", "AxVerif.Lemmas.PlanSql", "AxVerif.Model.Sql", "AxVerif.Lemmas.Sql"],
     "rule": "one case = a database (1-3 tables, 0-320 rows, unique indexes over one or two columns, INT/BIGINT/TEXT keys), a "
             "history (INSERT, UPDATE of plain / unique / indexed columns, DELETE by key, by range over an indexed column and by "
             "other predicates, re-insertion of deleted keys, committed and rolled-back sessions, VACUUM, ANALYZE with sample "
